@@ -6,7 +6,21 @@ from vf.core import Ctx
 
 
 def run(ctx: Ctx) -> None:
-    run_family(ctx, 'C08', 'c08', 250, 4000)
+    from props import queuemodel as qm
+    # the answer-queue model (spec/Queue.tla): NoResurrection holds exhaustively with the withdrawal of queued answers and is
+    # violated without it (defect D6); its behaviours with unregistrations are replayed into the real responder
+    info = qm.check_models(ctx)
+    mscs, predicted = qm.model_scenarios(ctx, 'c08')
+    mscs = [m for m in mscs if any(st['op'] == 'unreg' for st in m['steps'])]
+    scenarios, traces = run_family(ctx, 'C08', 'c08', 250, 4000, mscs)
+    d = qm.drift(traces, predicted)
+    for x in d[:5]:
+        print('MODEL-DRIFT property=C08 scenario=%s real multicast answers %s, model predicts %s (evidence, not a verdict)'
+              % (x['scenario'], x['real'], x['model']))
+    ctx.coverage.update(info)
+    ctx.coverage.update({'model_behaviours_replayed': len(mscs), 'model_drift': len(d), 'model_drift_samples': d[:3]})
+    ctx.log('Queue model: %d distinct states; behaviours with unregistration replayed: %d, drift: %d'
+            % (info['model_distinct'], len(mscs), len(d)))
 
 
 def replay(ctx: Ctx, path: str) -> None:
